@@ -1,4 +1,4 @@
-import CardVerif.Model.Float53
+import CardModel.Model.Float53
 /-!
 # `card_utils.games.poker.pot.Pot`
 
